@@ -9,3 +9,29 @@ CLAIMED["C20"] = (
     "Theorems in coq/Props/C20.v: the translated is_buffered_transition equals 'angle left the widened basin' for the library's three boundary sets, every state, every accepted buffer width and every off-gate angle (finite case split closed by lra), the translated _rotamers run equals the specification automaton by induction over the angle history, zero buffer is binning, states are valid; transition bookkeeping characterised exactly. The generated model is run against the real _rotamers / disorder.transitions.",
     "translator/tr_rotamer.py, py2coq.py; loop skeleton Base/RotamerBase.v checked by correspondence only; np.digitize modelled.",
     "DESIGN.md 7 C20")
+
+CLAIMED["C04"] = (
+    "Coq proof over an executable Q-model of normalize/transpose/mle-guard+post-iteration with a certified exact stationary solve; differential correspondence evaluated in Coq over builder x 10 containers x prior x eq_probs",
+    "Theorems in coq/Props/C04.v (closed under the global context): row-normalisation is stochastic with T_ij*rowsum = C_ij, transpose satisfies detailed balance and stationarity, any symmetric non-negative X gives a reversible stochastic pair (mle post-iteration), prior counts are applied before estimation, rejection guards, and uniqueness of the stationary vector of an irreducible chain (so the eigen-solver output must match the model).",
+    "partial for LAPACK/ARPACK eigenvectors (compared at 1e-9 with the exact unique vector), container kinds, aliasing and dense/sparse agreement (runtime oracle on every container); the mle iteration itself is C12.",
+    "DESIGN.md 7 C04")
+CLAIMED["C08"] = (
+    "Coq proof over an executable Q-model of reactive_fluxes/net_fluxes (dense+sparse branch)/reactive_populations; flux algebra by induction on finite sums; differential correspondence evaluated in Coq",
+    "Theorems in coq/Props/C08.v (closed under the global context): flux definition and zero diagonal, net flux is the positive part with at most one direction per pair, conservation at every intermediate state for reversible chains, nothing into sources / out of sinks, source outflow = sink inflow, reactive populations are a probability vector vanishing on sources and sinks.",
+    "the forward committor is an input assumed to satisfy the committor equations (produced by core.committors, C07; checked per case exactly on the model's q and to 1e-9 on the code's doubles); NumPy/SciPy broadcasting and sparse ops executed not verified; populations clause applies when the normaliser is non-zero.",
+    "DESIGN.md 7 C08")
+CLAIMED["C11"] = (
+    "Coq proof over an executable model of trim_disconnected/TrimMapping/MSM.fit (Warshall closure, component weight, arg-max, sub-matrix/zeroing, dict model); differential correspondence evaluated in Coq incl. exhaustive digraphs on <= 4 states in the thorough tier",
+    "Theorems in coq/Props/C11.v (closed under the global context): closure = reflexive-transitive reachability, kept set is exactly one strongly connected component of maximal total original count, trimmed matrix strongly connected, counts preserved / removed rows and columns zero, mapping is an order-preserving bijection with to_mapped the inverse of to_original, renumbered and in-place variants describe the same model, container kept, MSM.fit reports the same mapping.",
+    "scipy connected_components specified as mutual reachability (not verified; label order not modelled; on equal maximal weights any maximiser accepted); NumPy fancy indexing, sparse constructors and dict semantics modelled.",
+    "DESIGN.md 7 C11")
+CLAIMED["C17"] = (
+    "Coq proof over an executable model of top_path/paths with both removal schemes over Q+-inf (invariants over the search loop incl. the full Dijkstra/widest-path invariant); exact differential correspondence evaluated in Coq; oracle by exhaustive simple-path enumeration",
+    "Theorems in coq/Props/C17.v (closed under the global context): returned paths are simple source-to-sink paths over positive edges with flux = minimum edge, the top path is bottleneck-optimal over all walks, -inf only when no walk exists, error cases, termination of the model, paths = successive top paths of the residuals, num_paths respected, fluxes antitone for both schemes, subtract: sum <= source outflow; bottleneck: sum <= outflow refuted by two witnesses (known findings reproduced on the code).",
+    "'conserved flow reaches the requested fraction' and 'input unchanged' rest on the oracle / array comparison only; NumPy primitives modelled; weights are small integers or halves so float subtraction is exact; explained-fraction cut-off compared only when |sum-cutoff| > 1e-12.",
+    "DESIGN.md 7 C17")
+CLAIMED["C18"] = (
+    "Coq proof: exact joint counts, rejection, pooling, relabelling, frame order, schedule independence over nat/Z/Q; MI/KL laws (Gibbs inequality) over Reals; differential correspondence evaluated in Coq over 8 integer dtypes, layouts, 1..16 threads",
+    "Theorems in coq/Props/C18.v: counts are exact under any schedule of the increments, invalid ids / unequal lengths are rejected and nothing else, pooled counts = counts of the concatenation, relabelling and frame reordering permute / preserve the table, channel-capacity divisor grid entry (i,j) = min(n_x[i], n_y[j]), weighted tables under uniform weights = counts/T (closed under the global context); MI >= 0, symmetric, = entropy on the diagonal, <= each marginal entropy, relabelling-invariant, KL >= 0 and zero iff equal (over R).",
+    "theorems over R depend on the standard library's ClassicalDedekindReals.sig_forall_dec, sig_not_dec, FunctionalExtensionality.functional_extensionality_dep, Classical_Prop.classic; MI laws are about exact real arithmetic on rectangular count tables, the implementation's doubles are compared at 1e-9 through a double evaluation of the formula (trusted glue); shape lemma for the kernel result and real-valued weighted=plain equality open; dtype/layout/OpenMP covered by correspondence only.",
+    "DESIGN.md 7 C18")
